@@ -121,30 +121,33 @@ theorem kernel_send_in_window (cfg : Cfg) (cc : CCState ℚ) (rtt : ℚ) (script
 /-- **The Reno rules at every ACK event of a kernel run** (`C17.reno_new_ack_at_sender`, `third_dupack`, `more_dupacks`,
 `new_ack_after_dupacks` transferred): when the script delivers `ack` into `put` in a kernel step,
 
-* a new ACK outside fast recovery on a Reno sender grows `cwnd` by one MSS in slow start and by `MSS²/cwnd` in congestion
+* a new ACK (`ackno > last_ack`) outside fast recovery on a Reno sender grows `cwnd` by one MSS in slow start and by `MSS²/cwnd` in congestion
   avoidance (`renoGrow`), `ssthresh` stays, `last_ack` moves, `dupack = 0`;
 * the third duplicate sets `ssthresh = max(2·MSS, cwnd/2)`, `cwnd = ssthresh + 3·MSS` and leaves the estimator alone;
 * every further duplicate adds one MSS;
-* the new ACK that ends fast recovery gives `cwnd = ssthresh + MSS`. -/
+* the new ACK that ends fast recovery gives `cwnd = ssthresh + MSS`;
+* an ACK below the acknowledged mark (overtaken on the return path by a later cumulative ACK) changes nothing and sends nothing
+  (`C16.stale_ack_is_noop` transferred). -/
 theorem kernel_reno_rules (cfg : Cfg) (cc : CCState ℚ) (rtt : ℚ) (script : Script) (hs : Setup cfg cc rtt script)
     (fuel : Nat) (s s' : KS) (hreach : KReach (body cfg) (fuel + 1) (initState cc rtt script) s)
     (hstep : (step (body cfg) (fuel + 1) s).state? = some s') :
     ∃ acts outs, runLts (absSender cfg s) acts = .ok (absSender cfg s') outs ∧
       txsOf s'.trace = txsOf s.trace ++ outs.map txPair ∧
-      Along (fun S x S' _ => ∀ a, x = .ack a →
-        (a.ackno ≠ S.last_ack → S.dupack < 3 → S.kind = .reno →
+      Along (fun S x S' o => ∀ a, x = .ack a →
+        (S.last_ack < a.ackno → S.dupack < 3 → S.kind = .reno →
           S'.cc.cwnd = renoGrow S.cc.mss S.cc.cwnd S.cc.ssthresh ∧ S'.cc.ssthresh = S.cc.ssthresh ∧
           S'.last_ack = a.ackno ∧ S'.dupack = 0) ∧
         (a.ackno = S.last_ack → S.dupack = 2 →
           S'.cc.ssthresh = lossSsthresh S.cc.mss S.cc.cwnd ∧ S'.cc.cwnd = fastRetransmitCwnd S.cc.mss S.cc.cwnd ∧
           S'.dupack = 3 ∧ S'.est = S.est) ∧
         (a.ackno = S.last_ack → 3 ≤ S.dupack → S'.cc.cwnd = S.cc.cwnd + S.cc.mss ∧ S'.cc.ssthresh = S.cc.ssthresh) ∧
-        (a.ackno ≠ S.last_ack → 3 ≤ S.dupack → S'.cc.cwnd = S.cc.ssthresh + S.cc.mss ∧ S'.dupack = 0))
+        (S.last_ack < a.ackno → 3 ≤ S.dupack → S'.cc.cwnd = S.cc.ssthresh + S.cc.mss ∧ S'.dupack = 0) ∧
+        (a.ackno < S.last_ack → S' = S ∧ o = []))
         (absSender cfg s) acts :=
   sender_on_kernel_events_obey _ (fun S x S' o hi hx hst a ha => by
     subst ha
     have hok := ackOk_of_step hx hst
-    refine ⟨fun h1 h2 h3 => ?_, fun h1 h2 => ?_, fun h1 h2 => ?_, fun h1 h2 => ?_⟩
+    refine ⟨fun h1 h2 h3 => ?_, fun h1 h2 => ?_, fun h1 h2 => ?_, fun h1 h2 => ?_, fun h1 => ?_⟩
     · obtain ⟨S2, e, r⟩ := C17.reno_new_ack_at_sender S a hi h3 hok h1 h2
       rw [hst] at e; cases e; exact r
     · obtain ⟨e0, S2, o2, e, r1, r2, r3, _⟩ := C17.third_dupack S a hok h1 h2
@@ -154,7 +157,9 @@ theorem kernel_reno_rules (cfg : Cfg) (cc : CCState ℚ) (rtt : ℚ) (script : S
     · obtain ⟨_, S2, o2, e, _, r2, r3, _⟩ := C17.more_dupacks S a hok h1 h2
       rw [hst] at e; cases e; exact ⟨r2, r3⟩
     · obtain ⟨_, S2, e, r1, _, _, r4, _⟩ := C17.new_ack_after_dupacks S a hi hok h1 h2
-      rw [hst] at e; cases e; exact ⟨r4, r1⟩) cfg cc rtt script hs fuel s s' hreach hstep
+      rw [hst] at e; cases e; exact ⟨r4, r1⟩
+    · have e := C16.stale_ack_is_noop S a hok.1 hok.2 h1
+      rw [hst] at e; injection e with e1 e2; exact ⟨e1, e2⟩) cfg cc rtt script hs fuel s s' hreach hstep
 
 /-- **The timeout rule at every timer expiry of a kernel run** (`C17.timeout_rule` transferred): when the sleep timeout of a
 live `Timer` process is processed, `cwnd` becomes one MSS, `ssthresh` stays, the RTO doubles, exactly that segment is
@@ -201,7 +206,7 @@ theorem kernel_rto_formula (cfg : Cfg) (cc : CCState ℚ) (rtt : ℚ) (script : 
     (hstep : (step (body cfg) (fuel + 1) s).state? = some s') :
     ∃ acts outs, runLts (absSender cfg s) acts = .ok (absSender cfg s') outs ∧
       txsOf s'.trace = txsOf s.trace ++ outs.map txPair ∧
-      Along (fun S x S' _ => ∀ a, x = .ack a → a.ackno ≠ S.last_ack →
+      Along (fun S x S' _ => ∀ a, x = .ack a → S.last_ack < a.ackno →
         S'.est.rtt_estimate = srttNext S.est.rtt_estimate (S.now - a.ptime) ∧
         S'.est.est_deviation = varNext S.est.rtt_estimate S.est.est_deviation (S.now - a.ptime) ∧
         S'.est.rto = S'.est.rtt_estimate + 4 * S'.est.est_deviation) (absSender cfg s) acts :=
@@ -209,6 +214,18 @@ theorem kernel_rto_formula (cfg : Cfg) (cc : CCState ℚ) (rtt : ℚ) (script : 
     subst ha
     obtain ⟨_, S2, e, r⟩ := C17.rto_formula S a hi (ackOk_of_step hx hst) hnew
     rw [hst] at e; cases e; exact r) cfg cc rtt script hs fuel s s' hreach hstep
+
+/-- **C16 `last_ack_monotone` on kernel runs**: at every event of a kernel run of the program - whatever ACK numbers the network
+script delivers, in whatever order - the attribute cell `last_ack` does not decrease (each LTS action the step maps to leaves
+the acknowledged mark or moves it forward). -/
+theorem kernel_last_ack_monotone (cfg : Cfg) (cc : CCState ℚ) (rtt : ℚ) (script : Script) (hs : Setup cfg cc rtt script)
+    (fuel : Nat) (s s' : KS) (hreach : KReach (body cfg) (fuel + 1) (initState cc rtt script) s)
+    (hstep : (step (body cfg) (fuel + 1) s).state? = some s') :
+    ∃ acts outs, runLts (absSender cfg s) acts = .ok (absSender cfg s') outs ∧
+      txsOf s'.trace = txsOf s.trace ++ outs.map txPair ∧
+      Along (fun S _ S' _ => S.last_ack ≤ S'.last_ack) (absSender cfg s) acts :=
+  sender_on_kernel_events_obey _ (fun _ _ _ _ hi hx hst => TcpSender.step_last_ack_mono hi hx hst)
+    cfg cc rtt script hs fuel s s' hreach hstep
 
 /-- **C16 `no_spurious_retransmit` on kernel runs**: if the LTS run a kernel run maps to is *timely* (`TimelyRun`: every
 delivered ACK acknowledges exactly the next unacknowledged segment - what a loss-free order-preserving path produces - and
@@ -282,6 +299,23 @@ example : summary (flowCfg 4) 100 fastRetransmit =
     some (true, [(0, 0), (512, 0), (1024, 0), (1536, 0), (0, 1/5)], 2048, 1536) := by decide +kernel
 
 example : refineCheck (flowCfg 4) 100 fastRetransmit 0 = some 21 := by decide +kernel
+
+/-- **an ACK overtaken on the return path**: a 3-segment flow with an initial window of three segments; the ACKs of segments 512
+and 1024 (cumulative: 1024, 1536) arrive at 1/5, the ACK of segment 0 (512) was held back and arrives at 6/5, below the
+acknowledged mark: `put` returns at once; the mark stays at 1536 and the window at 1536 + 2·512 (the unrepaired code ended this
+run with `last_ack = 512`) -/
+def overtakenAck : KState ℚ (SnSt ℚ) :=
+  initState (reno 1536) 1 [(1/5, ack 1024 512 0), (0, ack 1536 1024 0), (1, ack 512 0 0)]
+
+example : summary (flowCfg 3) 100 overtakenAck = some (true, [(0, 0), (512, 0), (1024, 0)], 1536, 2560) := by decide +kernel
+
+example : refineCheck (flowCfg 3) 100 overtakenAck 0 = some 18 := by decide +kernel
+
+example : Setup (flowCfg 3) (reno 1536) 1 [(1/5, ack 1024 512 0), (0, ack 1536 1024 0), (1, ack 512 0 0)] := by
+  refine ⟨⟨by norm_num [reno], by norm_num [reno], by norm_num [reno], fun h => by cases h⟩, by norm_num, by decide, by decide,
+    ⟨3, by decide⟩, ?_⟩
+  simp only [ScriptOK, ack]
+  norm_num
 
 /-- the hypotheses `Setup` of the theorems are met by the three runs above (Reno with `cwnd ≥ mss`, `rtt_estimate = 1`, flows of
 3 and 4 segments, scripts with non-negative gaps whose ACKs are stamped in the past of their delivery) … -/
